@@ -2,7 +2,8 @@
 # replay_seeds.sh : apply every kept seeded change to /repo in turn (git apply / git checkout -- .), run the quick
 # check of its property (plus the properties that share a clause with it) and print which checks report a violation.
 # Never commits anything; refuses to run on a dirty /repo.
-cd /repo || exit 2
+R=${REPLAY_REPO:-/repo}; export VERIF_REPO=$R
+cd $R || exit 2
 git diff --quiet || { echo "/repo has uncommitted changes"; exit 2; }
 extra() { case "$1" in C03) echo "C05 C09";; C16) echo "C02";; C10) echo "C02";; C01) echo "C15";; C05) echo "C01";; *) echo "";; esac; }
 for d in /verif/seeded/*/; do
@@ -10,7 +11,7 @@ for d in /verif/seeded/*/; do
   if ! git apply "$d/patch.diff" 2>/dev/null; then echo "$id: PATCH DOES NOT APPLY"; continue; fi
   hit=""
   for c in $prop $(extra $prop); do
-    (cd /verif && ./check $c --tier quick > /tmp/replay_seed.out 2>&1); code=$?
+    (cd /verif && ./check $c --tier quick > /tmp/replay_seed.$$.out 2>&1); code=$?
     [ $code -eq 1 ] && hit="$hit $c"
     [ $code -eq 2 ] && hit="$hit $c(broken)"
   done
